@@ -11,7 +11,7 @@ COQ_TARGETS = ["Props/C12.vo", "Props/C12_fp.vo", "Props/C12_events.vo", "Props/
 PROPS_FILES = ["C12", "C12_fp", "C12_events", "C12_fl"]
 THEOREMS = ["C12_unit_disc_accepts", "C12_unit_disc_rejects", "C12_unit_ball_accepts", "C12_unit_ball_rejects", "C12_unit_sphere_accepts", "C12_unit_sphere_rejects", "C12_unit_circle_accepts", "C12_unit_circle_rejects", "C12_fingerprints", "C12_circle_norm", "C12_sphere_norm", "C12_disc_ball_norm", "C12_circle_angle_doubling", "C12_sphere_z_linear",
             "C12_u_pm1_range", "C12_unit_circle_real", "C12_circle_origin_rejected", "C12_unit_circle_norm", "C12_unit_sphere_norm", "C12_unit_disc_norm", "C12_unit_ball_norm",
-            "C12_accept_fl_def", "C12_disc_accept_fl_norm", "C12_ball_accept_fl_norm", "C12_disc_sum_fl_value", "C12_disc_accept_fl_complete", "C12_ball_accept_fl_complete", "C12_fl_source", "C12_sphere_fl_source", "C12_Btwo_correct", "C12_sphere_fl_finite"]
+            "C12_accept_fl_def", "C12_disc_accept_fl_norm", "C12_ball_accept_fl_norm", "C12_disc_sum_fl_value", "C12_disc_accept_fl_complete", "C12_ball_accept_fl_complete", "C12_fl_source", "C12_sphere_fl_source", "C12_Btwo_correct", "C12_sphere_fl_finite", "C12_circle_fl_source", "C12_circle_c0_fl_unit"]
 TRUSTED_BASE = [
     "Coq 8.16.1 kernel; stdlib real axioms; Proofs/MultiProofs.v: norm identities of von Neumann's circle and Marsaglia's sphere transforms, "
     "angle doubling, z = 1 - 2s, lifted by induction over the rejection loop to every result of the models coq/Model/Multi.v; the uniform draw "
